@@ -108,6 +108,13 @@ class Box:
     return int(np.asarray(s.count).reshape(-1)[0])
 
 
+def leaf_types(state):
+  """abstract type of every leaf: shape, dtype and weak_type (a weakly typed leaf promotes differently
+  against 16-bit gradients; flax serialization does not preserve the flag)"""
+  return tuple((tuple(np.shape(x)), str(getattr(x, "dtype", type(x).__name__)), bool(getattr(x, "weak_type", False)))
+               for x in jax.tree.leaves(state))
+
+
 def grads_for(box, T, seed):
   if box.kind == "tf":
     from harness import tfrun
@@ -119,12 +126,12 @@ def uninterrupted(variant, shapes, T, seed, eager):
   box = Box(variant, shapes, seed, eager)
   grads = grads_for(box, T, seed)
   sb = [box.save()]
-  td = [jax.tree.structure(box.state)]
+  td = [(jax.tree.structure(box.state), leaf_types(box.state))]
   ub = []
   for t in range(T):
     ub.append(box.step(grads[t]))
     sb.append(box.save())
-    td.append(jax.tree.structure(box.state))
+    td.append((jax.tree.structure(box.state), leaf_types(box.state)))
   return box, grads, sb, ub, td
 
 
@@ -174,10 +181,15 @@ def run_schedule(variant, shapes, T, seed, eager, sched, first, grads, sb, ub, t
         box.state = _corrupt(box.state)
       stats["restores"] += 1
       count = disk_count
-      ev["tref"] = (tdef == td[count])
-      if not ev["tref"]:
+      lt = leaf_types(box.state)
+      ev["tref"] = (tdef == td[count][0]) and (lt == td[count][1])
+      if tdef != td[count][0]:
         mism.append({"clause": "treedef_differs_after_restore", "at": i, "count": count,
-                     "detail": [str(tdef)[:300], str(td[count])[:300]]})
+                     "detail": [str(tdef)[:300], str(td[count][0])[:300]]})
+      elif lt != td[count][1]:
+        bad = [(a, b) for a, b in zip(lt, td[count][1]) if a != b][:3]
+        mism.append({"clause": "leaf_type_differs_after_restore", "at": i, "count": count,
+                     "detail": "restored (shape, dtype, weak_type) vs live: " + str(bad)})
     else:
       raise ValueError(act)
     live = box.save()
@@ -216,7 +228,7 @@ def handle(job):
                                     corrupt=job.get("corrupt_restore", False))
         results.append({"mismatches": mism, "events": events})
       return {"error": None, "results": results, "restores": stats["restores"],
-              "state_bytes": len(sb[-1]), "treedef": str(td[-1])[:400]}
+              "state_bytes": len(sb[-1]), "treedef": str(td[-1][0])[:400]}
     if kind == "xref":
       box, grads, sb, ub, td = uninterrupted(variant, shapes, T, seed, False)
       return {"error": None, "saves": {str(k): sb[k].hex() for k in job["ks"]},
